@@ -34,8 +34,17 @@ TRUSTED_BASE = [
 STALE = b"\xa5STALE-OUTPUT-OF-AN-EARLIER-RUN\n" * 700      # ~22 KB: longer than most outputs
 
 
+_prep_counter = [0]
+
+
 def make_stale(path):
-    """the output path already exists and holds a longer file from an earlier run (a command must replace it, not write over its head)"""
+    """state of an output path before a command runs, alternating from call to call: it already exists and holds a longer file from an
+    earlier run (a command must replace it, not write over its head) / it does not exist (a refused command must not create it)"""
+    _prep_counter[0] += 1
+    if _prep_counter[0] % 3 == 0:
+        if os.path.exists(path):
+            os.unlink(path)
+        return
     with open(path, "wb") as fh:
         fh.write(STALE)
 
